@@ -169,6 +169,23 @@ func (b *BlockSync) OnEnd(w *World) {
 					offers = append(offers, offer{"forged-with-nil-precommits", forgedSuccessor(bi, c)})
 				}
 			}
+			// one (Byzantine) key in EVERY slot: its own address and its own precommit for the block
+			for bz := range w.IsByz {
+				if !w.IsByz[bz] {
+					continue
+				}
+				vi, _ := vals.GetByAddress(w.Addrs[bz])
+				if vi < 0 {
+					continue
+				}
+				v := w.byzVote(bz, uint32(vi), kproto.PrecommitType, h, 1, bi.ID, "blocksync").Vote
+				sigs := make([]types.CommitSig, len(vals.Validators))
+				for i := range sigs {
+					sigs[i] = types.NewCommitSigForBlock(v.Signature, v.ValidatorAddress, v.Timestamp)
+				}
+				offers = append(offers, offer{"forged-one-key-in-every-slot", forgedSuccessor(bi, types.NewCommit(h, 1, bi.ID, sigs))})
+				break
+			}
 			offers = append(offers, offer{"successor-without-signatures", forgedSuccessor(bi, types.NewCommit(h, 1, bi.ID, make([]types.CommitSig, len(vals.Validators))))})
 			for _, of := range offers {
 				sn := prefix()
